@@ -80,6 +80,8 @@ func main() {
 		h.GenTmo(rng, thorough, emit)
 	case "trip":
 		h.GenTrip(rng, thorough, emit)
+	case "tripw":
+		h.GenTripW(rng, thorough, emit)
 	case "life":
 		h.GenLife(rng, thorough, emit)
 	case "lmtp":
